@@ -6,14 +6,14 @@ CONSTANTS
   MaxResub = 1
   LiveLimit = 3
   Modes = {"rec"}
-  Kinds = {"fresh", "rlive", "rstream"}
-  Pages = {1, 2}
+  Kinds = {"fresh"}
+  Pages = {1}
   SSizes = {1, 2}
-  Filts = {"none", "client"}
+  Filts = {"none", "server"}
   Ops = {"pub", "rem", "exp", "sexp", "clear", "refresh", "poscheck"}
-  MaxJumps = 0
+  MaxJumps = 1
   Pres = {2}
-  N0s = {0}
+  N0s = {2}
   Contig = FALSE
   DropStale = FALSE
 VIEW View
